@@ -76,6 +76,11 @@ CHECKS = {
    note="Trusted: harness worker isolation; Coq kernel for the algebra. Known findings D11 (typer.rs:2909 on the repo's own sample), D15 (print!/format! of aggregates segfaults), D21 (resolver.rs:1000). Fixed: D20. Print Assumptions: closed.",
    technique="Coq proof of the poison/error accumulation algebra + crash-stream exploration in isolated processes with site-keyed findings",
    design="5/C02"),
+ "C20": dict(
+   text="Machine-checked proof (Coq) on the reference printer/parser (Model/RefParser.v): printing any tree the parser can return and parsing the tokens again gives the same tree, hence a second print is identical (all productions, no bound). The real rebuilder is compared differentially on grammar derivations, generated programs and the corpus: rebuild -> real lex+parse -> same tree up to literal spelling/suffix, second rebuild byte-identical; modules whose rebuilt text carries `#` annotations are re-checked with the annotations removed so that this listed finding does not hide others. On the pinned code the property fails for whole classes of modules (structure declarations, function-head flags, opaque structures, empty modules): listed findings D26-D29, each keyed by construct.",
+   note="Trusted: Coq kernel; Model/RefParser.v (tied to the real first-generation parser by exact tree equality on every input of C16/C20 runs); harness serialiser showser.rs. Print Assumptions: closed.",
+   technique="Coq proof of parse-print round trip on a reference grammar + differential round trip of the real rebuilder with construct-keyed findings",
+   design="5/C20"),
 }
 
 NOT_YET = {
